@@ -141,7 +141,8 @@ func (c *opCtx) callStarts() {
 
 type kept struct {
 	m     *regexp2.Match
-	e     error // a returned error: its text must stay the same, too
+	e     error  // a returned error: its text must stay the same, too
+	runes []rune // a rune slice handed out by Capture.Runes(), kept WITHOUT its match
 	canon string
 }
 
@@ -167,6 +168,10 @@ func canonWalk(re *regexp2.Regexp, m *regexp2.Match, err error, ctx *opCtx, keep
 		canonOne(&sb, m)
 		if keep != nil && keepMatches && len(*keep) < 6 {
 			*keep = append(*keep, kept{m: m, canon: sb.String()[a:]})
+			if g := m.GroupByNumber(0); g != nil && len(*keep) < 6 {
+				rs := g.Runes()
+				*keep = append(*keep, kept{runes: rs, canon: string(rs)})
+			}
 		}
 		sb.WriteString("|")
 		walk++
